@@ -41,11 +41,16 @@ func (x *ctx) softf(key, format string, args ...any) {
 
 // softOrder: the rarest defect first, so that the ubiquitous ones do not hide it.
 var softOrder = []string{
+	"matrix-removeedge-self-overwrites-diagonal",
+	"undirectweighted-weight-self-is-merged",
+	"undirectweighted-weight-without-edge-not-zero",
+	"implicit-nodes-item-after-end",
 	"matrix-setedge-outside-modifies-node",
 	"matrix-setedge-outside-runtime-fault",
 	"removeline-never-joined-runtime-fault",
 	"ordered-iter-slice-repeats-current-item",
 	"ordered-iter-len-counts-current-item",
+	"map-iter-item-after-end",
 }
 
 func (x *ctx) softResult() *vk.Failure {
@@ -296,6 +301,14 @@ func (x *ctx) apply(op Op) *vk.Failure {
 		}
 		if ki.dense {
 			m.denseRemove(a, b)
+			if a == b && m.has(a) && s.matrix != nil {
+				// a self edge cannot exist: documented as a no-op
+				if got := s.matrix().At(int(a), int(a)); !same(got, m.diag[a]) && same(got, m.absent) {
+					x.softf("matrix-removeedge-self-overwrites-diagonal",
+						"RemoveEdge(%d,%d) is documented as a no-op (the edge does not exist) but overwrites the diagonal entry (self weight %v) with absent %v: Matrix().At(%d,%d)=%v while Weight(%d,%d)=%v", a, a, m.diag[a], m.absent, a, a, got, a, a, m.self)
+					m.diag[a] = got // follow the container so that the history can go on
+				}
+			}
 		} else {
 			m.removeLine(a, b, 0)
 		}
@@ -733,6 +746,9 @@ func (x *ctx) compare(ids []int64, recent map[int64]bool) *vk.Failure {
 			for j := 0; j < m.n; j++ {
 				if i != j && wbits(mt.At(i, j)) != wbits(m.tabAt(int64(i), int64(j))) {
 					return x.failf("matrix", "Matrix().At(%d,%d)=%v, model %v", i, j, mt.At(i, j), m.tabAt(int64(i), int64(j)))
+				}
+				if i == j && wbits(mt.At(i, i)) != wbits(m.diag[i]) {
+					return x.failf("matrix-diagonal", "Matrix().At(%d,%d)=%v, the self weight is %v", i, i, mt.At(i, i), m.diag[i])
 				}
 			}
 		}
